@@ -453,16 +453,29 @@ def endtoend(ctx, n_solves):
                             n_onsurf[c] = n_onsurf.get(c, 0) + 1
                             break
                         # (b) an interpolated point inside a segment across which the section function changes sign
+                        matches = []
                         for kk in ks:
                             lo, hi = np.minimum(S[kk], S[kk + 1]), np.maximum(S[kk], S[kk + 1])
                             slack = 0.25 * (hi - lo) + 1e-9          # cubic interpolation may overshoot the chord slightly
                             if np.all(X[k] >= lo - slack) and np.all(X[k] <= hi + slack):
-                                ok, how = True, "crossing"
-                                break
+                                matches.append(kk)
+                        if matches:
+                            ok, how = True, "crossing"
                         if ok:
                             break
                     ctx.check(ok, "E:every section point of the search is a crossing of a trajectory of its own manifold (source first, target second)",
                               lambda: {**wit, "side": side, "row": k, "state": X[k], "trajectory_index": None if ti is None else int(ti[k])})
+                    if how == "crossing" and direction is not None:
+                        # a configured crossing direction refers to physical time for both manifolds (a stable branch is stored in
+                        # backward-time order): sign of the change of the section function across the bracketing samples, divided by
+                        # the sign of the time increment between them
+                        tt = np.asarray(trajs[c].times, dtype=float)
+                        phys = [float(np.sign((g[kk + 1] - g[kk]) * (tt[kk + 1] - tt[kk]))) for kk in matches]
+                        kk = matches[0]
+                        ctx.check(direction in phys,
+                                  "E:with a configured crossing direction every interpolated section point crosses in that direction in physical time",
+                                  lambda: {**wit, "side": side, "row": k, "state": X[k], "segment": kk, "g_left_right": [g[kk], g[kk + 1]],
+                                           "t_left_right": [tt[kk], tt[kk + 1]], "stable_manifold": bool(getattr(man, "stable", None) in (1, True))})
                     if how == "crossing":
                         gk = abs(float(X[k, ax] - offset))
                         ctx.stat("E:|section coordinate - offset| of interpolated section states", gk)
